@@ -7,8 +7,14 @@ PID = "C11"
 def run(tier, seed, only=None):
     cfgs = [req.Cfg("default"), req.Cfg("-j8", flags=["-j8"]), req.Cfg("initial-ram", ram="initial-ram")]
     jobs = [(c, cfgs) for c in corpus.corpus(tier, extra=("subsume",)) if c.family == "subsume"]
-    return rcheck.run_jobs(PID, tier, jobs, only=only, level="other",
+    res = rcheck.run_jobs(PID, tier, jobs, only=only, level="other",
                            what="Programs with subsumptive clauses whose dominance is a strict partial order (min/max cost, shortest "
                                 "path, Pareto pairs): on the emitted RAM for every database in the bound: no output tuple is dominated by "
                                 "another output tuple; every output tuple is in the unsubsumed least model; for monotone-cost programs "
                                 "the output equals the minimal tuples of the unsubsumed least model; same for -j1/-j8 RAM.")
+    if not only:
+        # K part: the interpreter's deletable relation keeps one B-tree per search order; ERASE must reach all of them
+        # (obligation of the interp-relation group of engine_k/c08k.py: BtreeDeleteRelation::erase with 1..3 indexes)
+        from engine_k import c08k
+        c08k.extend(res, tier, seed, "k:rel_erase")
+    return res
